@@ -411,6 +411,30 @@ def _(p):
     return None if len(out) == p["df"] else f"wrong-column-count: bs(df={p['df']}) gave {len(out)} columns"
 
 
+@replay("c12_bs_nulls")
+def _(p):
+    from formulaic.transforms import TRANSFORMS
+
+    train = list(p["train"])
+    tn = train[:3] + [float("nan")] + train[3:]
+    st, st2 = {}, {}
+    kw = dict(df=p["df"], degree=p["degree"], include_intercept=p["ii"])
+    out = TRANSFORMS["bs"](numpy.array(train), _state=st, **kw)
+    out2 = TRANSFORMS["bs"](numpy.array(tn), _state=st2, **kw)
+    for k in st:
+        a, b = st[k], st2.get(k)
+        if isinstance(a, (list, numpy.ndarray)):
+            if b is None or not numpy.allclose(numpy.asarray(a, dtype=float), numpy.asarray(b, dtype=float)):
+                return f"state-differs: bs state {k!r} is {b} with one NaN in the training vector, {a} without"
+        elif a != b:
+            return f"state-differs: bs state {k!r} is {b} with one NaN in the training vector, {a} without"
+    for k in out:
+        col = numpy.asarray(out2[k], dtype=float)
+        if not numpy.isnan(col[3]) or not numpy.allclose(numpy.delete(col, 3), numpy.asarray(out[k], dtype=float)):
+            return f"rows-differ: bs column {k}: {col.tolist()} vs {numpy.asarray(out[k]).tolist()} (NaN inserted at row 3)"
+    return None
+
+
 # ------------------------------------------------------------------------------------------------ C16
 
 
